@@ -287,6 +287,7 @@ def _obj_rce_cases():
                 label='%s,reduction=%s' % (centre, lbl),
                 params={'self': ('obj', 'bycycle.objs.fit.Bycycle', attrs), 'reduction': rt},
                 requires=["forall(j, 0 <= j < len(self.df_features), self.df_features['period'][j] > 0)",
+                          "not self.df_features['is_burst'][0]",          # (the first cycle of a fitted table is never a burst: C06)
                           # an object fitted with burst_method='cycles' carries the consistency thresholds only
                           "not present(self.thresholds, 'burst_fraction_threshold')"],
                 raises={'ValueError': " or ".join(
